@@ -2,6 +2,7 @@ pub mod c01;
 pub mod c06;
 pub mod c10;
 pub mod c14;
+pub mod c15;
 
 use crate::run::RunCtx;
 
@@ -11,6 +12,7 @@ pub fn dispatch(prop: &str, rc: &mut RunCtx) -> bool {
         "C06" => c06::run(rc),
         "C10" => c10::run(rc),
         "C14" => c14::run(rc),
+        "C15" => c15::run(rc),
         _ => return false,
     }
     true
